@@ -61,22 +61,16 @@ Section C06.
       deser_val re_match e ens rec ku ign f j = Raise x -> x = ValueError \/ model_exn x = true.
   Proof. exact (wrapper_error_class re_match e ens). Qed.
 
-  (* (5) For every class environment whose declarations are well formed and have no positional container
-         (Tuple, Array/Deque with a list of item fields) outside a multi-field wrapper, every rejection by
+  (* (5) For every class environment whose declarations are well formed -- positional containers (Tuple, Array/Deque
+         with a list of item fields) included, inside and outside multi-field wrappers -- every rejection by
          Deserializer(cls).deserialize -- pre-validation, error collection, nested structures, the final
-         constructor call -- is a TypeError/ValueError, for all documents, flags and keep_undefined. *)
+         constructor call -- is a TypeError/ValueError, for all documents, flags and keep_undefined.
+         (Until finding F9 was repaired this carried the hypothesis "no positional container outside a wrapper":
+         value[i] on a document shorter than the positional items raised IndexError.) *)
   Theorem C06_error_class : forall n ku cn j x,
-      env_wf e = true -> env_posfree e = true ->
+      env_wf e = true ->
       deserialize re_match e ens fl n ku cn j = Raise x -> is_te_ve x = true \/ model_exn x = true.
   Proof. exact (deserialize_error_class re_match e ens fl). Qed.
-
-  (* (6) Without the restriction the only other exception is IndexError (finding F9: value[i] on a document
-         shorter than the positional items) ... *)
-  Theorem C06_error_class_all : forall n ku cn j x,
-      env_wf e = true ->
-      deserialize re_match e ens fl n ku cn j = Raise x ->
-      is_te_ve x = true \/ model_exn x = true \/ x = IndexError.
-  Proof. exact (deserialize_error_class_all re_match e ens fl). Qed.
 
   (* (7) the final authority: every rejection by the constructor is a TypeError/ValueError *)
   Theorem C06_constructor_error_class : forall c kw x,
@@ -113,8 +107,11 @@ Section C06.
   Proof. exact (construct_perm re_match e). Qed.
 End C06.
 
-(* ... and it does occur: the full statement "every rejection is a TypeError/ValueError"
-   (Ser/DeserExn.error_class_statement) is false of the faithful model (F9, open). *)
+(* (6) the full statement "every rejection is a TypeError/ValueError" (Ser/DeserExn.error_class_statement), over all
+   class environments: it holds since F9 was repaired (a positional document that is too short is a ValueError). *)
+Theorem C06_error_class_statement : error_class_statement.
+Proof. exact error_class_holds. Qed.
+
 (* The exception flow the model assumes is the one the source has NOW (Gen/DeserFlow.v is regenerated from
    serialization.py on every run): list-like handlers = rewrap, the wrapper's handler catches everything and
    its own errors are raised inside it, construct_fields_map collects TypeError/ValueError only. *)
@@ -134,17 +131,29 @@ Theorem C06_src_fields_map_handler :
   exists r, rows_of (s2p "construct_fields_map") = [r] /\ forall x, row_catches r x = is_te_ve x.
 Proof. exact fields_map_handler_collects_te_ve. Qed.
 
-Theorem C06_error_class_refuted : ~ error_class_statement.
-Proof. exact error_class_refuted. Qed.
+(* deserialize_single_field: the handler around SerializableField.deserialize catches exactly ValueError and raises
+   ValueError again with the field's name (the model's [rewrap_ve] around Enum.deserialize) *)
+Theorem C06_src_single_field_handlers :
+  exists r1 r2, rows_of (s2p "deserialize_single_field") = [r1; r2] /\ forall x, row_catches r2 x = is_ve x.
+Proof. exact single_field_handlers. Qed.
 
-(* non-vacuity: the hypotheses of (5) hold of a class with a wrapper over a positional alternative, and the
-   wrapper does turn the IndexError of that alternative into a ValueError / a match of the next one *)
+(* non-vacuity: the hypothesis of (5) holds of a class with a positional Tuple outside every wrapper and of a class
+   with a wrapper over a positional alternative; a document shorter than the positional items is a ValueError in the
+   first, "does not match" (the next alternative is taken) in the second; a one-item Tuple reads every element *)
 Example C06_error_class_nonvacuous :
-  let f := FAnyOf [FTuple [c06_int; c06_str] false; FSeqEach SeqList c06_int {| minItems := None; maxItems := None |} false] in
-  env_wf [c06_cls f] = true /\ env_posfree [c06_cls f] = true /\
+  let t := FTuple [c06_int; c06_str] false in
+  let f := FAnyOf [t; FSeqEach SeqList c06_int {| minItems := None; maxItems := None |} false] in
+  env_wf [c06_cls t] = true /\ env_wf [c06_cls f] = true /\
+  deserialize (fun _ _ => true) [c06_cls t] [] c06_flags 3 (Some true) (s2p "A") (c06_doc (PList [PNum (NInt 1)]))
+  = Raise ValueError /\
   deserialize (fun _ _ => true) [c06_cls f] [] c06_flags 3 (Some true) (s2p "A") (c06_doc (PList [PNum (NInt 1)]))
   = Ok (PStruct (s2p "A") [(s2p "t", PList [PNum (NInt 1)])]) /\
   deserialize (fun _ _ => true) [c06_cls f] [] c06_flags 3 (Some true) (s2p "A") (c06_doc (PList [PStr (s2p "a")]))
+  = Raise ValueError /\
+  deserialize (fun _ _ => true) [c06_cls (FTuple [c06_int] false)] [] c06_flags 3 (Some true) (s2p "A") (c06_doc (PList []))
+  = Ok (PStruct (s2p "A") [(s2p "t", PTuple [])]) /\
+  deserialize (fun _ _ => true) [c06_cls (FTuple [c06_int] false)] [] c06_flags 3 (Some true) (s2p "A")
+              (c06_doc (PList [PNum (NInt 1); PStr (s2p "a")]))
   = Raise ValueError.
 Proof. vm_compute. repeat split; reflexivity. Qed.
 
@@ -175,14 +184,14 @@ Print Assumptions C06_keep_undefined_adjustment.
 Print Assumptions C06_extra_keys_cases.
 Print Assumptions C06_wrapper_error_class.
 Print Assumptions C06_error_class.
-Print Assumptions C06_error_class_all.
+Print Assumptions C06_error_class_statement.
 Print Assumptions C06_constructor_error_class.
 Print Assumptions C06_agree_scalar.
 Print Assumptions C06_constructor_order_free.
 Print Assumptions C06_src_list_like_handlers.
 Print Assumptions C06_src_wrapper_handler.
 Print Assumptions C06_src_fields_map_handler.
-Print Assumptions C06_error_class_refuted.
+Print Assumptions C06_src_single_field_handlers.
 
 (* ---- the tie to the source of the deserialization dispatch, re-checked by the kernel on every run ------------
    Gen/DeserializeSrc.v is re-generated from typedpy/serialization/serialization.py (harness/genmods/py2v_deserialize.py):
